@@ -22,7 +22,7 @@ package cache
 //   - checks the structural invariants after quiescence.
 // The race detector watches all of it.  Schedules cannot be replayed: the
 // replay file carries the program and (in the detail) the offending history;
-// replaying re-runs the program 3000 times.
+// replaying re-runs the program 20x as often as a normal run (3000 / 12000 times).
 
 import (
 	"fmt"
@@ -147,7 +147,7 @@ func c18CheckHistory(c c18HCase) h.Result {
 	}
 	reps := 150
 	if !strings.HasPrefix(os.Getenv("VERIF_CONFIG"), "race") {
-		reps = 1000 // uninstrumented code is ~10x faster
+		reps = 600 // uninstrumented code is several times faster
 	}
 	reps = C18Reps(reps, 20*reps)
 	rep, viol := C18Spawn("history", "TestC18ChildHistory", c, c.Procs, reps)
